@@ -8,8 +8,16 @@ pub mod c05;
 pub mod c06;
 pub mod c07;
 pub mod c08;
+pub mod c09;
+pub mod c10;
+pub mod c11;
 pub mod c12;
+pub mod c13;
+pub mod c14;
+pub mod c15;
 pub mod c16;
+pub mod c17;
+pub mod c18;
 
 use crate::engine::{run, Opts};
 
@@ -23,8 +31,16 @@ pub fn dispatch(id: &str, opts: &Opts) -> i32 {
         "C06" => run(&c06::C06, opts),
         "C07" => run(&c07::C07, opts),
         "C08" => run(&c08::C08, opts),
+        "C09" => run(&c09::C09, opts),
+        "C10" => run(&c10::C10, opts),
+        "C11" => run(&c11::C11, opts),
         "C12" => run(&c12::C12, opts),
+        "C13" => run(&c13::C13, opts),
+        "C14" => run(&c14::C14, opts),
+        "C15" => run(&c15::C15, opts),
         "C16" => run(&c16::C16, opts),
+        "C17" => run(&c17::C17, opts),
+        "C18" => run(&c18::C18, opts),
         _ => {
             eprintln!("unknown property {}", id);
             2
